@@ -374,44 +374,62 @@ class CellWorld:
 
     # -- canonical form -----------------------------------------------------------
     def canon(self):
-        cell = self.cell
-        rank = {n: i for i, n in enumerate(sorted(
-            cell.apps, key=lambda n: int(n.split('#')[1])))}
-        apps = tuple(
-            (self.tmpl[a.name], rank[a.name], a.server, a.identity, a.priority,
-             a.evicted, a.unschedule, a.renew, a.blacklisted,
-             '/'.join(a.allocation.path) if a.allocation else None,
-             logical(a.placement_expiry))
-            for a in cell.apps.values())
-        alloc_order = tuple(
-            (an, tuple(rank[n] for n in al.apps))
-            for an, al in sorted(self.allocs.items()))
+        return (canon_cell(self.cell, lambda n: self.tmpl[n]),
+                tuple(sorted(self.alloc_variant.items())), CLOCK.L)
 
-        def node(n):
-            if isinstance(n, S.Server):
-                return ('S', n.name, n.state.value, logical(n.get_state()[1]),
-                        vec(n.init_capacity), vec(n.free_capacity),
-                        tuple(sorted(map(str, n.labels))), n.traits.traits,
-                        logical(n.valid_until),
-                        tuple(rank.get(a, a) for a in n.apps),
-                        tuple(sorted((k, v) for k, v in
-                                     n.affinity_counters.items() if v)))
-            return ('B', n.name, vec(n.free_capacity),
+
+def _seq(name):
+    return int(name.rsplit('#', 1)[1])
+
+
+def canon_cell(cell, tmpl):
+    """Canonical projection of a Cell: every field that steers the scheduler,
+    instances renamed to (template, arrival rank)."""
+    names = set(cell.apps)
+    for srv in cell.members().values():
+        names.update(srv.apps)
+    rank = {n: i for i, n in enumerate(sorted(names, key=_seq))}
+    apps = tuple(
+        (tmpl(a.name), rank[a.name], a.server, a.identity, a.priority,
+         a.evicted, a.unschedule, a.renew, a.blacklisted,
+         '/'.join(a.allocation.path) if a.allocation else None,
+         str(a.allocation.label) if a.allocation else None,
+         logical(a.placement_expiry), a.data_retention_timeout, a.lease)
+        for a in cell.apps.values())
+
+    def alloc(al):
+        mu = al.max_utilization
+        return ('/'.join(al.path), vec(al.reserved), al.rank,
+                al.rank_adjustment, None if mu == float('inf') else mu,
+                al.traits, tuple(rank.get(n, n) for n in al.apps),
+                tuple(alloc(sub) for _n, sub in
+                      sorted(al.sub_allocations.items())))
+
+    def node(n):
+        if isinstance(n, S.Server):
+            return ('S', n.name, n.state.value, logical(n.get_state()[1]),
+                    vec(n.init_capacity), vec(n.free_capacity),
                     tuple(sorted(map(str, n.labels))), n.traits.traits,
                     logical(n.valid_until),
+                    tuple(rank.get(a, a) for a in n.apps),
                     tuple(sorted((k, v) for k, v in
-                                 n.affinity_counters.items() if v)),
-                    tuple(sorted((aff, st.current_idx) for aff, st in
-                                 n.affinity_strategies.items())),
-                    tuple(node(c) if c else None for c in n.children))
-        groups = tuple(sorted(
-            (g, grp.count, tuple(sorted(grp.available)))
-            for g, grp in cell.identity_groups.items()))
-        allocs = tuple(sorted(self.alloc_variant.items()))
-        parts = tuple(
-            (str(label), tuple((logical(b.timestamp),
-                                tuple(sorted(s.name for s in b.servers)))
-                               for b in part._reboot_buckets if b.servers))
-            for label, part in sorted(cell.partitions.items(),
-                                      key=lambda kv: str(kv[0])))
-        return (apps, alloc_order, node(cell), groups, allocs, parts, CLOCK.L)
+                                 n.affinity_counters.items() if v)))
+        return ('B', n.name, vec(n.free_capacity),
+                tuple(sorted(map(str, n.labels))), n.traits.traits,
+                logical(n.valid_until),
+                tuple(sorted((k, v) for k, v in
+                             n.affinity_counters.items() if v)),
+                tuple(sorted((aff, st.current_idx) for aff, st in
+                             n.affinity_strategies.items())),
+                tuple(node(c) if c else None for c in n.children))
+    groups = tuple(sorted(
+        (g, grp.count, tuple(sorted(grp.available)))
+        for g, grp in cell.identity_groups.items()))
+    parts = tuple(
+        (str(label), alloc(part.allocation),
+         tuple((logical(b.timestamp),
+                tuple(sorted(s.name for s in b.servers)))
+               for b in part._reboot_buckets if b.servers))
+        for label, part in sorted(cell.partitions.items(),
+                                  key=lambda kv: str(kv[0])))
+    return (apps, node(cell), groups, parts)
